@@ -1,0 +1,29 @@
+//go:build verif
+
+package recovery
+
+import "time"
+
+// VerifObserver receives one call per load attempt and one per back-off wait.
+// Used only by the external verification harness (build tag "verif").
+type VerifObserver struct {
+	Attempt func(n int, err error)
+	Delay   func(n int, d time.Duration)
+}
+
+var verifObserver *VerifObserver
+
+// VerifSetObserver installs (or, with nil, removes) the observer.
+func VerifSetObserver(o *VerifObserver) { verifObserver = o }
+
+func verifAttempt(n int, err error) {
+	if o := verifObserver; o != nil && o.Attempt != nil {
+		o.Attempt(n, err)
+	}
+}
+
+func verifDelay(n int, d time.Duration) {
+	if o := verifObserver; o != nil && o.Delay != nil {
+		o.Delay(n, d)
+	}
+}
